@@ -1,1 +1,665 @@
-/-! C17 — property theorems (placeholder until the model exists). -/
+import EupsModel.Lemmas.Expand
+import EupsModel.Lemmas.ExpandDeps
+import EupsModel.Lemmas.ExpandSetup
+/-! C17 — an expanded table file reproduces the build-time versions exactly.  Property theorems only
+(the model is `Model/Expand.lean`, helper lemmas are in `Lemmas/Expand.lean`).
+
+`A : Answers` is what the environment told the expander (`pin` = the `-p prod=ver` pins, `sv` = `getSetupVersion`,
+`spv` = `findSetupProduct(..).version`, `deps` = `getDependencies(.., setup=True, shouldRaise=True)`); the
+correspondence check feeds the model with the answers the real `Eups` gave in the same process.
+
+`expandItems A o lines = .ok items`: the expansion of the table `lines` under options `o` succeeded and made the
+sequence `items` of `output(...)` calls; `renderItem` gives the text of each.  An item is an input line
+(`.orig indent kind text`), a generated line (`.gen`: `if (type == exact) {`, `} else {`, `if (type != exact) {`, `}`),
+a pin (`.pin indent optional name version`, the line `setupRequired(name -j version)`), or a line of the final block
+(`.fin`).  `noExactLine A o lines`: the table has no pre-existing `if (type == exact) {` line (the expander's handling
+of those, `i += 3`, is modelled and compared with the code, but the table-level theorems do not cover it). -/
+namespace EupsModel.C17
+open EupsModel EupsModel.Expand
+
+/-! ## never pins a foreign version -/
+
+/-- `C17_never_foreign`, unconditional part: whatever the environment answers, a `-j` pin written into the
+exact block names either a build-time record / `-p` pin, or an entry that `getDependencies` listed for a
+product of the table taken at its build-time record / pin.  Every graph, every table text, every option. -/
+theorem C17_never_foreign_sourced (A : Answers) (o : Opts) (lines : List Str) (items : List Item)
+    (h : expandItems A o lines = .ok items) (ind : Int) (opt : Bool) (n v : Str)
+    (hx : Item.pin ind opt n v ∈ items) : Sourced A o n v :=
+  pin_sourced h hx
+
+/-- `C17_never_foreign` (every graph, conflicts included): under `DepsSound`, every `-j v` line of the exact
+block names an `(n, v)` that was set up when the table was written (`getSetupVersion n = v`) or that the user
+pinned with `-p n=v`. -/
+theorem C17_never_foreign (A : Answers) (o : Opts) (lines : List Str) (items : List Item)
+    (hs : DepsSound A) (h : expandItems A o lines = .ok items) (ind : Int) (opt : Bool) (n v : Str)
+    (hx : Item.pin ind opt n v ∈ items) : Recorded A n v := by
+  rcases pin_sourced h hx with h1 | ⟨_, n0, v0, l, d, _, hl, hd, rfl, rfl⟩
+  · exact h1
+  · exact .inl (hs n0 v0 l hl d hd)
+
+/-- Without recursion (the call `eups distrib` makes, `recurse=False`) no hypothesis is needed: only the
+table's own products are pinned, each at its record or pin. -/
+theorem C17_never_foreign_toplevel (A : Answers) (o : Opts) (lines : List Str) (items : List Item)
+    (hr : o.recurse = false) (h : expandItems A o lines = .ok items) (ind : Int) (opt : Bool) (n v : Str)
+    (hx : Item.pin ind opt n v ∈ items) : Recorded A n v := by
+  rcases pin_sourced h hx with h1 | ⟨hrc, _⟩
+  · exact h1
+  · simp [hr] at hrc
+
+/-- The text of a pin item is the line `setupRequired(<name padded to 15> -j <version>)` (resp. `setupOptional`). -/
+theorem pin_text (ind : Int) (opt : Bool) (n v : Str) :
+    renderItem (.pin ind opt n v) = indentStr ind ++ strip (cmdName opt ++ [cLpar] ++ pad15 n ++ sJ ++ v ++ [cRpar]) := rfl
+
+/-- The text of an input line in the output: re-indented, white space stripped. -/
+theorem orig_text (ind : Int) (k : LKind) (t : Str) : renderItem (.orig ind k t) = indentStr ind ++ strip t := rfl
+
+/-- The pins are written exactly once and exactly where the exact branch is: a setup block is emitted as
+`if (type == exact) {`, the pins, `} else {`, its own lines, `}` when it is the last one, and as
+`if (type != exact) {`, its own lines, `}` otherwise. -/
+theorem C17_setup_block_shape (o : Opts) (c : CState) (ind : Int) (lines : List BLine) (ha : o.addExactBlock = true) :
+    emitSetup o true c ind lines
+      = [.gen ind sIfExact] ++ pinItems (ind + 1) c ++ [.gen ind sElse] ++ emitSetupLines (ind + 1) lines ++ [.gen ind sClose]
+    ∧ emitSetup o false c ind lines = [.gen ind sIfNotExact] ++ emitSetupLines (ind + 1) lines ++ [.gen ind sClose] := by
+  simp [emitSetup, ha]
+
+/-- …and the pins of the whole output are, in order and each once, the collected closure `desiredProducts`. -/
+theorem C17_pins_once (A : Answers) (o : Opts) (lines : List Str) (items : List Item)
+    (h : expandItems A o lines = .ok items) (hn : noExactLine A o lines = true) (ha : o.addExactBlock = true) :
+    ∃ st c, readAll A o lines = .ok st ∧ collect A o st = .ok c ∧ items.filterMap pinKey = c.pinKeys :=
+  expand_pins h hn ha
+
+/-- **The exact branch, read off the text alone.**  `exactBranchText` takes the lines between the first line reading
+`if (type == exact) {` and the following line reading `} else {`.  For the text the expander writes these are exactly
+the pin lines of the collected closure (and there is no such branch when the table has no setup line). -/
+theorem C17_exact_branch_text (A : Answers) (o : Opts) (lines : List Str) (items : List Item)
+    (h : expandItems A o lines = .ok items) (hn : noExactLine A o lines = true) (ha : o.addExactBlock = true) :
+    ∃ st c ind, readAll A o lines = .ok st ∧ collect A o st = .ok c ∧
+      exactBranchText (items.map renderItem) = if st.lastSetup.isSome then (pinItems ind c).map renderItem else [] :=
+  expand_exact_branch_text h hn ha
+
+/-- `C17_never_foreign` at the level of the written text: every line of the exact block of the expanded table is a line
+`setupRequired(n -j v)` / `setupOptional(n -j v)` (`pin_text`) whose `(n, v)` was set up when the table was written, or
+pinned with `-p` — under `DepsSound`, for every graph. -/
+theorem C17_never_foreign_text (A : Answers) (o : Opts) (lines : List Str) (items : List Item)
+    (hs : DepsSound A) (h : expandItems A o lines = .ok items) (hn : noExactLine A o lines = true)
+    (ha : o.addExactBlock = true) :
+    ∀ l ∈ exactBranchText (items.map renderItem),
+      ∃ ind opt n v, l = renderItem (.pin ind opt n v) ∧ Recorded A n v := by
+  obtain ⟨st, c, ind, _, hc, heq⟩ := expand_exact_branch_text h hn ha
+  intro l hl
+  rw [heq] at hl
+  split at hl
+  · simp only [List.mem_map] at hl
+    obtain ⟨x, hx, rfl⟩ := hl
+    obtain ⟨n, v, hm, rfl⟩ := mem_pinItems hx
+    refine ⟨ind, _, n, v, rfl, ?_⟩
+    rcases collect_desired hc (n, v) hm with h1 | ⟨_, n0, v0, dl, d, _, hdl, hd, hdn, hdv⟩
+    · exact h1
+    · simp only at hdn hdv
+      subst hdn; subst hdv
+      exact .inl (hs n0 v0 dl hdl d hd)
+  · simp at hl
+
+/-- **`DepsSound` discharged from the C13 model of the dependency listing** (`Model/Deps.lean`): take the answers of
+`getDependencies(n, v, setup=True, shouldRaise=True)` to be what the C13 model computes (`depsOfModel`:
+`findProduct(n, v)`, then `Deps.getDependentProductsSetup`, not topological; `raises` = the answers for which
+`shouldRaise=True` raised, arbitrary) and `getSetupVersion` to read the same `SETUP_<P>` records `setup` as the listing;
+then `DepsSound` holds, for every database, every records list and every fuel. -/
+theorem C17_DepsSound_from_Deps (db : Deps.Db) (fuel : Nat) (setup : List (Str × Str)) (raises : Str → Str → Bool)
+    (A : Answers) (hsv : ∀ n, A.sv n = setup.lookup n)
+    (hdeps : ∀ n v, A.deps n v = depsOfModel db fuel setup raises n v) : DepsSound A :=
+  depsSound_of_depsModel db fuel setup raises A hsv hdeps
+
+/-- `C17_never_foreign` with `DepsSound` discharged: when the dependency listings are those of the C13 model, every
+`-j v` line of the exact block names a set-up `(n, v)` or a `-p` pin — no hypothesis on the listings left. -/
+theorem C17_never_foreign_over_Deps (db : Deps.Db) (fuel : Nat) (setup : List (Str × Str)) (raises : Str → Str → Bool)
+    (A : Answers) (hsv : ∀ n, A.sv n = setup.lookup n)
+    (hdeps : ∀ n v, A.deps n v = depsOfModel db fuel setup raises n v)
+    (o : Opts) (lines : List Str) (items : List Item) (h : expandItems A o lines = .ok items)
+    (ind : Int) (opt : Bool) (n v : Str) (hx : Item.pin ind opt n v ∈ items) : Recorded A n v :=
+  C17_never_foreign A o lines items (depsSound_of_depsModel db fuel setup raises A hsv hdeps) h ind opt n v hx
+
+/-! ## keeps the original constraints for inexact mode -/
+
+/-- `C17_keeps_constraints`, line level (`subSetup`).  `p` is what the expander read on a setup line (product,
+flags, explicit version, `[expr]` or relational expression); when the line is rewritten at all (`some r`), the
+rewritten command has the same product, the same flags in the same order and the same optionality;
+the original expression is kept verbatim; the original explicit version is kept (unless the user pinned the
+product with `-p`); only a line without an explicit version receives the set-up version, and only a line without any
+constraint receives `>= version`. -/
+theorem C17_keeps_constraints_line (A : Answers) (o : Opts) (optional : Bool) (p : Parsed) (r : Rewrite)
+    (h : decideRewrite A o optional p = some r) :
+    r.optional = optional ∧ r.name = p.name ∧ r.flags = p.flags ∧
+    (o.expandVersions = true → truthy p.logical = true → r.logical = p.logical) ∧
+    (A.pin p.name = none → truthy p.version = true → r.version = p.version) ∧
+    (A.pin p.name = none → truthy p.version = false → r.version = A.spv p.name) ∧
+    (∀ v, A.pin p.name = some v → truthy (some v) = true → r.version = some v) ∧
+    (o.expandVersions = true → truthy p.logical = false → A.pin p.name = none → truthy p.version = false →
+      ∀ v, A.spv p.name = some v → startsWith v sLocal = false → r.logical = some (sGe ++ v)) := by
+  unfold decideRewrite at h
+  cases hpin : A.pin p.name with
+  | some pv =>
+    by_cases htv : truthy (some pv) = true
+    · simp only [hpin, htv, if_true, Bool.not_true, Bool.false_eq_true, if_false, Option.some.injEq] at h
+      subst h
+      refine ⟨rfl, rfl, rfl, ?_, by simp, by simp, ?_, by simp⟩
+      · intro he hl; simp [he, hl]
+      · intro v hv _; simp at hv; subst hv; rfl
+    · simp only [hpin, htv, Bool.false_eq_true, if_false] at h
+      cases hspv : A.spv p.name with
+      | none => simp [hspv, htv] at h
+      | some sv =>
+        simp only [hspv] at h
+        by_cases hts : truthy (some sv) = true
+        · simp only [hts, Bool.not_true, Bool.false_eq_true, if_false, Option.some.injEq] at h
+          subst h
+          refine ⟨rfl, rfl, rfl, ?_, by simp, by simp, ?_, by simp⟩
+          · intro he hl; simp [he, hl]
+          · intro v hv htv'; simp at hv; subst hv; exact absurd htv' htv
+        · simp [hts] at h
+  | none =>
+    simp only [hpin] at h
+    by_cases htv : truthy p.version = true
+    · simp only [htv, if_true, Bool.not_true, Bool.false_eq_true, if_false, Option.some.injEq] at h
+      subst h
+      refine ⟨rfl, rfl, rfl, ?_, by simp, by simp [htv], by simp, by simp [htv]⟩
+      intro he hl; simp [he, hl]
+    · simp only [htv, Bool.false_eq_true, if_false] at h
+      cases hspv : A.spv p.name with
+      | none => simp [hspv, htv] at h
+      | some sv =>
+        simp only [hspv] at h
+        by_cases hts : truthy (some sv) = true
+        · simp only [hts, Bool.not_true, Bool.false_eq_true, if_false, Option.some.injEq] at h
+          subst h
+          refine ⟨rfl, rfl, rfl, ?_, by simp [htv], by simp, by simp, ?_⟩
+          · intro he hl; simp [he, hl]
+          · intro he hl _ _ v hv hloc
+            simp at hv; subst hv
+            have hge : sGe = [62, 61, 32] := by decide
+            have ht : truthy (some (sGe ++ sv)) = true := by rw [hge]; rfl
+            simp [he, hl, hloc, ht]
+        · simp [hts] at h
+
+/-- A setup command is either left exactly as it was (the `eups` pseudo-product, no product word, or nothing set up
+for it) or rewritten as described by `C17_keeps_constraints_line`. -/
+theorem C17_subSetup_cases (A : Answers) (o : Opts) (optional : Bool) (argStr original t : Str)
+    (h : subSetup A o optional argStr original = .ok t) :
+    t = original ∨ ∃ p r, parseArgs argStr = .ok (.parsed p) ∧ decideRewrite A o optional p = some r ∧ t = renderRewrite r := by
+  unfold subSetup at h
+  cases hp : parseArgs argStr with
+  | error e => simp [hp, bind, Except.bind] at h
+  | ok pr =>
+    cases pr with
+    | passthrough => simp [hp, bind, Except.bind, pure, Except.pure] at h; exact .inl h.symm
+    | parsed p =>
+      cases hd : decideRewrite A o optional p with
+      | none => simp [hp, hd, bind, Except.bind, pure, Except.pure] at h; exact .inl h.symm
+      | some r => simp [hp, hd, bind, Except.bind, pure, Except.pure] at h; exact .inr ⟨p, r, rfl, hd, h.symm⟩
+
+/-- `C17_keeps_constraints`, table level: every setup line of the table (as rewritten by `subSetup`) is in the output,
+once and in the original order, as an input line inside an inexact branch (`C17_setup_block_shape`) — except the lines
+labelled `--external` and the `eups` lines, which are moved to the final block (`C17_final_block`). -/
+theorem C17_keeps_constraints (A : Answers) (o : Opts) (lines : List Str) (items : List Item)
+    (h : expandItems A o lines = .ok items) (hn : noExactLine A o lines = true) :
+    ∃ cs, lines.mapM (classify A o) = .ok cs ∧
+      items.filterMap (origOf .setup)
+        = ((cs.filterMap Classified.setupText).filter fun t => !contains sExternal (strip t)).map strip :=
+  expand_setup_lines h hn
+
+/-- The final block: the `eups` setup lines, then the `--external` setup lines of products other than the top-level
+one, each as it was rewritten; nothing else. -/
+theorem C17_final_block (A : Answers) (o : Opts) (lines : List Str) (items : List Item)
+    (h : expandItems A o lines = .ok items) :
+    ∃ cs, lines.mapM (classify A o) = .ok cs ∧
+      items.filterMap finText = cs.filterMap Classified.finalLine ++
+        ((cs.filterMap Classified.prod).filter fun p => !(o.toplevel == some p.name) && p.external).map (·.line) :=
+  expand_final h
+
+/-! ## passes the other lines through -/
+
+/-- `C17_passthrough`: the input lines of kind `other` in the output are, in order and each once, exactly the lines
+the reader classified as not being setup commands (comment-stripped; `orig_text`: re-indented and stripped when printed). -/
+theorem C17_passthrough (A : Answers) (o : Opts) (lines : List Str) (items : List Item)
+    (h : expandItems A o lines = .ok items) (hn : noExactLine A o lines = true) :
+    ∃ cs, lines.mapM (classify A o) = .ok cs ∧
+      items.filterMap (origOf .other) = cs.filterMap Classified.otherText :=
+  expand_other_lines h hn
+
+/-- a line of the input that is neither blank / comment nor contains a setup command -/
+def isOtherInput (raw : Str) : Bool := !isBlankOrComment raw && (searchRex (stripComment raw)).isNone
+
+/-- `C17_passthrough`, in terms of the input text alone: the lines of the table that contain no setup command (and
+are not blank or comments) appear in the output in their original order, each with its trailing comment dropped,
+whatever the environment answers. -/
+theorem C17_passthrough_text (A : Answers) (o : Opts) (lines : List Str) (items : List Item)
+    (h : expandItems A o lines = .ok items) (hn : noExactLine A o lines = true) :
+    ((lines.filter isOtherInput).map stripComment).Sublist (items.filterMap (origOf .other)) := by
+  obtain ⟨cs, hcs, heq⟩ := expand_other_lines h hn
+  rw [heq]
+  clear heq h hn
+  induction lines generalizing cs with
+  | nil => simp
+  | cons raw rest ih =>
+    simp only [List.mapM_cons, bind, Except.bind] at hcs
+    cases hc : classify A o raw with
+    | error e => simp [hc] at hcs
+    | ok c =>
+      simp only [hc] at hcs
+      cases hr : rest.mapM (classify A o) with
+      | error e => simp [hr] at hcs
+      | ok cs' =>
+        simp [hr, pure, Except.pure] at hcs
+        subst hcs
+        have ih' := ih cs' hr
+        by_cases ho : isOtherInput raw = true
+        · have hb : isBlankOrComment raw = false := by
+            unfold isOtherInput at ho; simp at ho; exact ho.1
+          have hm : searchRex (stripComment raw) = none := by
+            unfold isOtherInput at ho; simp at ho; exact ho.2
+          rw [classify_other_of_noMatch A o raw hb hm] at hc
+          cases hc
+          simp only [List.filter_cons, ho, if_true, List.map_cons, List.filterMap_cons, Classified.otherText]
+          exact List.Sublist.cons_cons _ ih'
+        · simp only [List.filter_cons, ho, Bool.false_eq_true, if_false, List.filterMap_cons]
+          cases c.otherText with
+          | none => exact ih'
+          | some t => exact List.Sublist.cons _ ih'
+
+/-! ## exact mode reproduces the build-time versions -/
+
+/-- `C17_exact_reproduces_partial`, instance form.  `ExactSetup lines db` is the effect on the records of setting a
+product up in exact mode from the table `lines` in database `db` (`none` = the setup fails).  The two facts needed from it:
+(`hA`) it applies exactly the lines of the `type == exact` branch — on this expanded table it acts like the table made of
+the pin lines alone; (`hB`) a `setupRequired(n -j v)` line sets up exactly `(n, v)` when it is declared — on the pin lines it
+acts like `runPins`.  Then, for a build whose set-up versions are the closure of the table (`Covered`, `DepsSound`; pins
+given with `-p` agree with what is set up) and any later database in which the recorded versions are still declared,
+exact setup from the expanded table succeeds and records exactly the build-time version of every product. -/
+theorem C17_exact_reproduces_partial_inst {Db : Type} (declared : Db → Str → Str → Bool)
+    (ExactSetup : List Str → Db → Option Recs)
+    (A : Answers) (o : Opts) (lines : List Str) (items : List Item)
+    (h : expandItems A o lines = .ok items) (hn : noExactLine A o lines = true) (ha : o.addExactBlock = true)
+    (hsound : DepsSound A) (hpins : ∀ n v, A.pin n = some v → A.sv n = some v)
+    (hcov : ∀ st, readAll A o lines = .ok st → Covered A o st)
+    (db' : Db) (hdecl : ∀ n v, A.sv n = some v → declared db' n v = true)
+    (hA : ExactSetup (items.map renderItem) db' = ExactSetup ((items.filter Item.isPin).map renderItem) db')
+    (hB : ExactSetup ((items.filter Item.isPin).map renderItem) db' = runPins declared db' (items.filterMap pinKey) (fun _ => none)) :
+    ∃ recs, ExactSetup (items.map renderItem) db' = some recs ∧ ∀ n, o.toplevel ≠ some n → recs n = A.sv n := by
+  obtain ⟨st, c, hr, hc, hpk⟩ := expand_pins h hn ha
+  rw [hA, hB, hpk]
+  have hsv : ∀ q ∈ c.desired, A.sv q.1 = some q.2 := by
+    intro q hq
+    rcases collect_desired hc q hq with h1 | ⟨_, n0, v0, l, d, _, hl, hd, hdn, hdv⟩
+    · rcases h1 with h1 | h1
+      · exact h1
+      · exact hpins _ _ h1
+    · rw [← hdn, ← hdv]; exact hsound n0 v0 l hl d hd
+  have hall : ∀ x ∈ c.pinKeys, declared db' x.2.1 x.2.2 = true ∧ A.sv x.2.1 = some x.2.2 := by
+    intro x hx
+    simp only [CState.pinKeys, List.mem_map] at hx
+    obtain ⟨⟨n, v⟩, hq, rfl⟩ := hx
+    have := hsv (n, v) hq
+    exact ⟨hdecl n v this, this⟩
+  obtain ⟨r, hrun, hspec⟩ := runPins_spec declared db' A.sv c.pinKeys (fun _ => none) hall
+  refine ⟨r, hrun, fun n hne => ?_⟩
+  by_cases hin : ∃ x ∈ c.pinKeys, x.2.1 = n
+  · exact (hspec n).1 hin
+  · rw [(hspec n).2 hin]
+    cases hs : A.sv n with
+    | none => rfl
+    | some v =>
+      exfalso
+      obtain ⟨p, hp, d, hd, hdn⟩ := hcov st hr n v hs hne
+      have hm := collect_complete hc p hp d hd
+      apply hin
+      refine ⟨(c.optional.contains (d.name, d.version) || c.notFound.contains d.name, d.name, d.version), ?_, hdn⟩
+      simp only [CState.pinKeys, List.mem_map]
+      exact ⟨(d.name, d.version), hm, rfl⟩
+
+/-- **What the Setup (C01) and TableParse (C11) models have to discharge about exact-mode setup**, for every expansion
+the expander can produce: `Inert t` says that the table parser does not read the line `t` as a setup command (the
+expander's notion — `setupRequired(` / `setupOptional(` spelled exactly so — is narrower than the parser's, which ignores
+case and allows blanks before the parenthesis; such lines are passed through outside every block). -/
+structure ExactSetupHyps {Db : Type} (declared : Db → Str → Str → Bool) (Inert : Str → Prop)
+    (ExactSetup : List Str → Db → Option Recs) : Prop where
+  /-- exact-mode setup applies exactly the lines of the `type == exact` branch -/
+  applies_exact_branch : ∀ (A : Answers) (o : Opts) (lines : List Str) (items : List Item),
+    expandItems A o lines = .ok items → noExactLine A o lines = true → o.addExactBlock = true →
+    (∀ cs, lines.mapM (classify A o) = .ok cs → ∀ t ∈ cs.filterMap Classified.otherText, Inert t) →
+    ∀ db, ExactSetup (items.map renderItem) db = ExactSetup ((items.filter Item.isPin).map renderItem) db
+  /-- a `setupRequired(n -j v)` line sets up exactly `(n, v)` when it is declared (`runPins`) -/
+  pin_sets_exactly : ∀ (pins : List (Int × Bool × Str × Str)) (db : Db),
+    ExactSetup (pins.map fun x => renderItem (.pin x.1 x.2.1 x.2.2.1 x.2.2.2)) db
+      = runPins declared db (pins.map (·.2)) (fun _ => none)
+
+/-- `C17_exact_reproduces_partial`: the clause at full strength over an abstract exact-mode setup function, under the
+named hypotheses `ExactSetupHyps` (Setup + TableParse), `DepsSound` and `Covered` (Deps + Setup). -/
+theorem C17_exact_reproduces_partial {Db : Type} (declared : Db → Str → Str → Bool) (Inert : Str → Prop)
+    (ExactSetup : List Str → Db → Option Recs) (H : ExactSetupHyps declared Inert ExactSetup)
+    (A : Answers) (o : Opts) (lines : List Str) (items : List Item)
+    (h : expandItems A o lines = .ok items) (hn : noExactLine A o lines = true) (ha : o.addExactBlock = true)
+    (hinert : ∀ cs, lines.mapM (classify A o) = .ok cs → ∀ t ∈ cs.filterMap Classified.otherText, Inert t)
+    (hsound : DepsSound A) (hpins : ∀ n v, A.pin n = some v → A.sv n = some v)
+    (hcov : ∀ st, readAll A o lines = .ok st → Covered A o st)
+    (db' : Db) (hdecl : ∀ n v, A.sv n = some v → declared db' n v = true) :
+    ∃ recs, ExactSetup (items.map renderItem) db' = some recs ∧ ∀ n, o.toplevel ≠ some n → recs n = A.sv n := by
+  obtain ⟨pl, hf, hm⟩ := filter_isPin_eq items
+  refine C17_exact_reproduces_partial_inst declared ExactSetup A o lines items h hn ha hsound hpins hcov db' hdecl
+    (H.applies_exact_branch A o lines items h hn ha hinert db') ?_
+  rw [hf, ← hm, List.map_map]
+  exact H.pin_sets_exactly pl db'
+
+
+/-! ## exact reproduction over the model of `Eups.setup` (C01) -/
+
+/-- **The Setup half of `ExactSetupHyps.pin_sets_exactly`, discharged from `Model/Setup.lean`.**  The action loop of
+`Eups.setup` (`Setup.acts` with `Setup.setup`, exact VRO, no `--keep`, no `--max-depth`), run at the top level on the
+actions `pinAct` of pin lines `setupX(n -j v)` for distinct products none of which is set up yet, behaves as `runPins`
+says: it succeeds with exactly the records `runPins` computes, or raises when `runPins` fails (a required pin that is no
+longer declared).  Every database, every fuel ≥ 1. -/
+theorem C17_pins_run_by_Setup (cfg : Setup.Cfg) (hk : cfg.keep = false) (hm : cfg.maxDepth = none) (fuel : Nat) (top : Setup.Decl)
+    (pins : List (Bool × Str × Str)) (s : Setup.St)
+    (hnodup : (pins.map (·.2.1)).Nodup)
+    (hfresh : ∀ p ∈ pins, Setup.aget s.already p.2.1 = none ∧ s.env.rec? p.2.1 = none) :
+    (∀ r, runPins declaredS cfg pins (recNames s.env) = some r →
+      ∃ s', Setup.acts (Setup.setup cfg (fuel + 1)) cfg true 0 false exactVro top (pins.map pinAct) s = .ok s' ∧
+        ∀ m, recNames s'.env m = r m) ∧
+    (runPins declaredS cfg pins (recNames s.env) = none →
+      ∃ s', Setup.acts (Setup.setup cfg (fuel + 1)) cfg true 0 false exactVro top (pins.map pinAct) s = .raised s') :=
+  acts_pins cfg hk hm fuel top pins s hnodup hfresh
+
+/-- `C17_exact_reproduces_over_Setup`: exact reproduction with the exact-mode setup of the C01 model, at the level of
+actions.  For a successful expansion (no pre-existing exact block, `addExactBlock`) whose build environment is the closure
+of the table (`DepsSound`, `Covered`, `-p` pins agree with the records), any later Setup database `cfg.db` in which the
+recorded versions are still declared, and any state `s` in which nothing but the top-level product is set up: running
+`Eups.setup`'s action loop in exact mode on the actions of the pin lines of the expanded table succeeds and leaves, for
+every product other than the top-level one, exactly its build-time record.  What is still assumed to connect this to the
+*text* of the expanded table is TableParse's part: that in exact mode the table's action list is `pinAct` of the pin lines
+(plus actions that do not touch records). -/
+theorem C17_exact_reproduces_over_Setup (cfg : Setup.Cfg) (hk : cfg.keep = false) (hm : cfg.maxDepth = none) (fuel : Nat)
+    (top : Setup.Decl) (s : Setup.St)
+    (A : Answers) (o : Opts) (lines : List Str) (items : List Item)
+    (h : expandItems A o lines = .ok items) (hn : noExactLine A o lines = true) (ha : o.addExactBlock = true)
+    (hsound : DepsSound A) (hpins : ∀ n v, A.pin n = some v → A.sv n = some v)
+    (hcov : ∀ st, readAll A o lines = .ok st → Covered A o st)
+    (hdecl : ∀ n v, A.sv n = some v → declaredS cfg n v = true)
+    (hclean : ∀ n, o.toplevel ≠ some n → Setup.aget s.already n = none ∧ s.env.rec? n = none)
+    (htop : ∀ v, ∀ n, o.toplevel = some n → (n, v) ∉ (items.filterMap pinKey).map (·.2)) :
+    ∃ s', Setup.acts (Setup.setup cfg (fuel + 1)) cfg true 0 false exactVro top ((items.filterMap pinKey).map pinAct) s = .ok s' ∧
+      ∀ n, o.toplevel ≠ some n → recNames s'.env n = A.sv n := by
+  obtain ⟨st, c, hr, hc, hpk⟩ := expand_pins h hn ha
+  have hsv : ∀ q ∈ c.desired, A.sv q.1 = some q.2 := by
+    intro q hq
+    rcases collect_desired hc q hq with h1 | ⟨_, n0, v0, l, d, _, hl, hd, hdn, hdv⟩
+    · rcases h1 with h1 | h1
+      · exact h1
+      · exact hpins _ _ h1
+    · rw [← hdn, ← hdv]; exact hsound n0 v0 l hl d hd
+  have hall : ∀ x ∈ c.pinKeys, declaredS cfg x.2.1 x.2.2 = true ∧ A.sv x.2.1 = some x.2.2 := by
+    intro x hx
+    simp only [CState.pinKeys, List.mem_map] at hx
+    obtain ⟨⟨n, v⟩, hq, rfl⟩ := hx
+    have := hsv (n, v) hq
+    exact ⟨hdecl n v this, this⟩
+  have hnames : ∀ x ∈ c.pinKeys, o.toplevel ≠ some x.2.1 := by
+    intro x hx htl
+    refine htop x.2.2 x.2.1 htl ?_
+    rw [hpk]
+    exact List.mem_map_of_mem (f := fun y : Bool × Str × Str => y.2) hx
+  rw [hpk]
+  obtain ⟨r, hrun, hspec⟩ := runPins_spec declaredS cfg A.sv c.pinKeys (recNames s.env) hall
+  obtain ⟨hok, _⟩ := acts_pins cfg hk hm fuel top c.pinKeys s
+    (pinKeys_names_nodup (collect_nodup hc) hsv) (fun p hp => hclean p.2.1 (hnames p hp))
+  obtain ⟨s', hs', hrecs⟩ := hok r hrun
+  refine ⟨s', hs', fun n hne => ?_⟩
+  rw [hrecs]
+  by_cases hin : ∃ x ∈ c.pinKeys, x.2.1 = n
+  · exact (hspec n).1 hin
+  · rw [(hspec n).2 hin]; simp only [recNames, (hclean n hne).2, Option.map_none]
+    cases hs : A.sv n with
+    | none => rfl
+    | some v =>
+      exfalso
+      obtain ⟨p, hp, d, hd, hdn⟩ := hcov st hr n v hs hne
+      have hm' := collect_complete hc p hp d hd
+      apply hin
+      refine ⟨(c.optional.contains (d.name, d.version) || c.notFound.contains d.name, d.name, d.version), ?_, hdn⟩
+      simp only [CState.pinKeys, List.mem_map]
+      exact ⟨(d.name, d.version), hm', rfl⟩
+
+/-! ## concrete instances: the hypotheses are satisfiable, the theorems are not vacuous; negation witnesses -/
+
+/-- string literal as a list of code points -/
+local macro "str!" s:str : term => do
+  let cs := s.getString.toList.toArray.map (fun c => Lean.Syntax.mkNumLit (toString c.toNat))
+  `(([$cs,*] : Str))
+
+def okItems (r : Except Err (List Item)) (l : List Item) : Bool :=
+  match r with
+  | .ok x => x == l
+  | .error _ => false
+
+theorem okItems_eq {r : Except Err (List Item)} {l : List Item} (h : okItems r l = true) : r = .ok l := by
+  unfold okItems at h
+  split at h
+  · simp at h; subst h; rfl
+  · simp at h
+
+def okText (r : Except Err (List Str)) (l : List Str) : Bool :=
+  match r with
+  | .ok x => x == l
+  | .error _ => false
+
+/-- Build environment of the example: `b 1`, `c 2`, `d 1` are set up (and the top product `a 1`); `b` depends on `c`. -/
+def D1 : AnswerData where
+  sv := [(str! "a", str! "1"), (str! "b", str! "1"), (str! "c", str! "2"), (str! "d", str! "1")]
+  spv := [(str! "a", str! "1"), (str! "b", str! "1"), (str! "c", str! "2"), (str! "d", str! "1")]
+  deps := [((str! "b", str! "1"), some [⟨str! "c", str! "2", false⟩]), ((str! "d", str! "1"), some [])]
+
+def o1 : Opts := { toplevel := some (str! "a") }
+
+def T1 : List Str :=
+  [str! "# the table of product a\n", str! "setupRequired(b >= 1)   # any b\n", str! "envPrepend(PATH, ${PRODUCT_DIR}/bin)\n",
+   str! "setupOptional(d -j)\n", str! "setupOptional(x)\n", str! "if (flavor == Linux) {\n", str! "   envSet(A_FL, 1)\n", str! "}\n"]
+
+/-- the sequence of `output` calls for that table -/
+def items1 : List Item :=
+  [.orig 0 .blank (str! "# the table of product a\n"),
+   .gen 0 sIfNotExact, .orig 1 .setup (str! "setupRequired(b 1 [>= 1])"), .gen 0 sClose,
+   .orig 0 .other (str! "envPrepend(PATH, ${PRODUCT_DIR}/bin)\n"),
+   .gen 0 sIfExact, .pin 1 false (str! "b") (str! "1"), .pin 1 false (str! "c") (str! "2"), .pin 1 true (str! "d") (str! "1"),
+   .gen 0 sElse, .orig 1 .setup (str! "setupOptional(d -j 1 [>= 1])"), .orig 1 .setup (str! "setupOptional(x)"), .gen 0 sClose,
+   .orig 0 .other (str! "if (flavor == Linux) {\n"), .orig 1 .other (str! "   envSet(A_FL, 1)\n"), .orig 1 .other (str! "}\n")]
+
+theorem expand1 : expandItems D1.toAnswers o1 T1 = .ok items1 := okItems_eq (by decide +kernel)
+
+/-- its text -/
+example : okText (expandText D1.toAnswers o1 T1)
+    [str! "# the table of product a", str! "if (type != exact) {", str! "   setupRequired(b 1 [>= 1])", str! "}",
+     str! "envPrepend(PATH, ${PRODUCT_DIR}/bin)", str! "if (type == exact) {", str! "   setupRequired(b               -j 1)",
+     str! "   setupRequired(c               -j 2)", str! "   setupOptional(d               -j 1)", str! "} else {",
+     str! "   setupOptional(d -j 1 [>= 1])", str! "   setupOptional(x)", str! "}", str! "if (flavor == Linux) {",
+     str! "   envSet(A_FL, 1)", str! "   }"] = true := by decide +kernel
+
+/-- the hypotheses of `C17_never_foreign` hold of the example, and its conclusion is about three pins -/
+example : DepsSound D1.toAnswers := depsSound_of_data (by decide +kernel)
+example : (items1.filterMap pinKey).length = 3 := by decide +kernel
+example : noExactLine D1.toAnswers o1 T1 = true := by decide +kernel
+/-- the exact branch of the example's text, read off the text: three pin lines -/
+example : exactBranchText (items1.map renderItem)
+    = [str! "   setupRequired(b               -j 1)", str! "   setupRequired(c               -j 2)",
+       str! "   setupOptional(d               -j 1)"] := by decide +kernel
+
+/-- (for the non-vacuity example only) a naive exact-mode reading of a table: lines of the form `setupX(name -j version)`
+that are not inside an `} else {` branch or an `if (type != exact) {` block are applied, everything else is ignored. -/
+def toyPins : Bool → List Str → List (Bool × Str × Str)
+  | _, [] => []
+  | skip, l :: rest =>
+    let t := strip l
+    if t == sIfExact then toyPins false rest
+    else if t == sElse || t == sIfNotExact then toyPins true rest
+    else if t == sClose then toyPins false rest
+    else if skip then toyPins skip rest
+    else match matchRexAt t with
+      | some m => match splitWs m.args with
+        | [n, j, v] => if j == sDashJ then (m.optional, n, v) :: toyPins skip rest else toyPins skip rest
+        | _ => toyPins skip rest
+      | none => toyPins skip rest
+
+def declared1 (db : List (Str × Str)) (n v : Str) : Bool := db.contains (n, v)
+
+def toyExactSetup (lines : List Str) (db : List (Str × Str)) : Option Recs :=
+  runPins declared1 db (toyPins false lines) (fun _ => none)
+
+/-- a later database: everything that was recorded is still declared; newer versions exist -/
+def db1 : List (Str × Str) :=
+  [(str! "a", str! "1"), (str! "b", str! "1"), (str! "b", str! "7"), (str! "c", str! "2"), (str! "c", str! "8"),
+   (str! "d", str! "1"), (str! "x", str! "1")]
+
+/-- `C17_exact_reproduces_partial_inst` is not vacuous: every hypothesis holds of the example (with the naive exact-mode
+reader above), so exact setup from the expanded table in the later database records `b 1`, `c 2`, `d 1` and nothing else. -/
+example : ∃ recs, toyExactSetup (items1.map renderItem) db1 = some recs ∧
+    ∀ n, o1.toplevel ≠ some n → recs n = D1.toAnswers.sv n :=
+  C17_exact_reproduces_partial_inst declared1 toyExactSetup D1.toAnswers o1 T1 items1
+    expand1 (by decide +kernel) rfl (depsSound_of_data (by decide +kernel)) (pinsAgree_of_data (by decide +kernel))
+    (covered_of_data (by decide +kernel)) db1
+    (by
+      intro n v h
+      have hm := lookup_mem (l := D1.sv) h
+      have : ∀ e ∈ D1.sv, db1.contains e = true := by decide +kernel
+      exact this (n, v) hm)
+    (by
+      unfold toyExactSetup
+      rw [show toyPins false (items1.map renderItem) = toyPins false ((items1.filter Item.isPin).map renderItem) by decide +kernel])
+    (by
+      unfold toyExactSetup
+      rw [show toyPins false ((items1.filter Item.isPin).map renderItem) = items1.filterMap pinKey by decide +kernel])
+
+/-- `C17_keeps_constraints_line` on a concrete line: `b >= 1` with `b 1` set up is rewritten to `b 1 [>= 1]`. -/
+example : (match parseArgs (str! "b >= 1") with
+    | .ok r => r == .parsed ⟨str! "b", [], none, some (str! ">= 1")⟩
+    | .error _ => false) = true := by decide +kernel
+example : decideRewrite D1.toAnswers o1 false ⟨str! "b", [], none, some (str! ">= 1")⟩
+    = some ⟨false, str! "b", [], some (str! "1"), some (str! ">= 1")⟩ := by decide +kernel
+
+/-- `C17_DepsSound_from_Deps` is not vacuous: a C13 database `a 1 → b 1 → c (current 2)`, records `b 1`, `c 2`; the model's
+listing for `b 1` is `[c 2]`, and the answers built from it satisfy the theorem's hypotheses by definition. -/
+def depsDb1 : Deps.Db :=
+  { decls := [⟨str! "a", str! "1", [⟨false, false, str! "b", none, false, false⟩], false⟩,
+              ⟨str! "b", str! "1", [⟨false, false, str! "c", none, false, false⟩], false⟩,
+              ⟨str! "c", str! "1", [], false⟩, ⟨str! "c", str! "2", [], false⟩],
+    current := [(str! "b", str! "1"), (str! "c", str! "1")] }
+def setup1 : List (Str × Str) := [(str! "a", str! "1"), (str! "b", str! "1"), (str! "c", str! "2")]
+def A1 : Answers :=
+  { pin := fun _ => none, spv := fun n => setup1.lookup n, sv := fun n => setup1.lookup n,
+    deps := depsOfModel depsDb1 depsDb1.fuel setup1 (fun _ _ => false) }
+example : (match A1.deps (str! "b") (str! "1") with
+    | .ok l => l == [⟨str! "c", str! "2", false⟩]      -- the set-up version 2, not the current one
+    | _ => false) = true := by decide +kernel
+example : DepsSound A1 :=
+  C17_DepsSound_from_Deps depsDb1 depsDb1.fuel setup1 (fun _ _ => false) A1 (fun _ => rfl) (fun _ _ => rfl)
+
+/-- `C17_exact_reproduces_over_Setup` is not vacuous: a later C01 database (newer versions of `b` and `c` declared, `current`
+moved), the state in which only the top product `a 1` is set up, and the expansion `items1` of the example above; the
+theorem then says that the exact-mode action loop on the three pin actions records `b 1`, `c 2`, `d 1`. -/
+def setupDb1 : Setup.Db :=
+  { decls := [⟨str! "a", (str! "1", 0), str! "/s/a/1", []⟩, ⟨str! "b", (str! "1", 0), str! "/s/b/1", [(.always, .dep (str! "c") false false none none [] false)]⟩,
+              ⟨str! "b", (str! "7", 0), str! "/s/b/7", []⟩, ⟨str! "c", (str! "2", 0), str! "/s/c/2", []⟩, ⟨str! "c", (str! "8", 0), str! "/s/c/8", []⟩,
+              ⟨str! "d", (str! "1", 0), str! "/s/d/1", [(.always, .dep (str! "c") false false none none [] false)]⟩],
+    tags := [(Setup.tagCurrent, str! "b", (str! "7", 0)), (Setup.tagCurrent, str! "c", (str! "8", 0))] }
+def setupCfg1 : Setup.Cfg := ⟨setupDb1, [0], false, none, true⟩
+def topDecl1 : Setup.Decl := ⟨str! "a", (str! "1", 0), str! "/s/a/1", []⟩
+def setupSt1 : Setup.St :=
+  ⟨⟨[(str! "a", (str! "1", 0))], [], [], []⟩, [], [], [(str! "a", (topDecl1, some .commandLine))], []⟩
+
+example : ∃ s', Setup.acts (Setup.setup setupCfg1 2) setupCfg1 true 0 false exactVro topDecl1 ((items1.filterMap pinKey).map pinAct) setupSt1 = .ok s' ∧
+    ∀ n, o1.toplevel ≠ some n → recNames s'.env n = D1.toAnswers.sv n :=
+  C17_exact_reproduces_over_Setup setupCfg1 rfl rfl 1 topDecl1 setupSt1 D1.toAnswers o1 T1 items1 expand1 (by decide +kernel) rfl
+    (depsSound_of_data (by decide +kernel)) (pinsAgree_of_data (by decide +kernel)) (covered_of_data (by decide +kernel))
+    (by
+      intro n v h
+      have hm := lookup_mem (l := D1.sv) h
+      have : ∀ e ∈ D1.sv, declaredS setupCfg1 e.1 e.2 = true := by decide +kernel
+      exact this (n, v) hm)
+    (by
+      intro n hne
+      have hna : (str! "a") ≠ n := fun e => hne (by rw [← e]; rfl)
+      simp [setupSt1, Setup.aget, Setup.Env.rec?, hna])
+    (by
+      intro v n htl
+      have : n = str! "a" := by
+        have : some (str! "a") = some n := htl
+        exact (Option.some.inj this).symm
+      subst this
+      have hp : (items1.filterMap pinKey).map (·.2) = [(str! "b", str! "1"), (str! "c", str! "2"), (str! "d", str! "1")] := by decide +kernel
+      rw [hp]
+      simp)
+
+/-! ### negation witnesses: the two ways `C17_exact_reproduces` failed on the pinned tree -/
+
+/-- **Empty exact block**: when nothing was set up for the table at build time (only optional dependencies, all
+absent) the expander writes `if (type == exact) {` immediately followed by `} else {`.  With the table parser's
+empty-branch defect D4 (repaired by the C11 work) the else branch was then applied in exact mode, so a later exact setup
+picked up whatever had been declared since. -/
+theorem C17_empty_exact_block_witness :
+    okText (expandText ({} : AnswerData).toAnswers o1 [str! "setupOptional(x)\n", str! "envSet(A_X, x)\n"])
+      [str! "if (type == exact) {", str! "} else {", str! "   setupOptional(x)", str! "}", str! "envSet(A_X, x)"] = true := by
+  decide +kernel
+
+/-- the closure collection of the pinned tree: `-j` was not carried into the loop -/
+def collectPinned (A : Answers) (o : Opts) (st : RState) : Except Err CState :=
+  collect A o { st with products := st.products.map fun p => { p with noRecursion := false } }
+
+def desiredIs (r : Except Err CState) (l : List (Str × Str)) : Bool :=
+  match r with
+  | .ok c => c.desired == l
+  | .error _ => false
+
+/-- `setupOptional(b -j)` set `b 1` up without its dependency `c`; `getDependencies(b, 1, shouldRaise=True)` raises -/
+def D2 : AnswerData where
+  sv := [(str! "a", str! "1"), (str! "d", str! "1"), (str! "b", str! "1")]
+  spv := [(str! "a", str! "1"), (str! "d", str! "1"), (str! "b", str! "1")]
+  deps := [((str! "d", str! "1"), some []), ((str! "b", str! "1"), none)]
+
+def T2 : List Str := [str! "setupRequired(d)\n", str! "setupOptional(b -j)\n"]
+
+/-- **D19** on the pinned collection: the optional `-j` product `b` is silently dropped from the closure (so exact
+re-setup no longer sets it up) … -/
+theorem C17_d19_witness_pinned :
+    desiredIs ((readAll D2.toAnswers o1 T2).bind (collectPinned D2.toAnswers o1)) [(str! "d", str! "1")] = true := by
+  decide +kernel
+
+/-- … and a required one makes the expansion fail. -/
+theorem C17_d19_witness_pinned_required :
+    (match (readAll D2.toAnswers o1 [str! "setupRequired(d)\n", str! "setupRequired(b -j)\n"]).bind (collectPinned D2.toAnswers o1) with
+      | .error .depsRaised => true
+      | _ => false) = true := by
+  decide +kernel
+
+/-- With the repair (`fix: … do not collect the dependencies of a product that the table sets up with -j`) the model of
+the current tree keeps `b`: the closure is everything that is set up. -/
+theorem C17_d19_repaired :
+    desiredIs ((readAll D2.toAnswers o1 T2).bind (collect D2.toAnswers o1)) [(str! "d", str! "1"), (str! "b", str! "1")] = true := by
+  decide +kernel
+
+/-- **D72** (open finding): the hypothesis `Covered` is not a formality.  Answers as the real code gives them for the table
+`setupRequired(d)`, `setupRequired(c)`, `setupRequired(b)` when `d` takes `f` away again, `c` takes `e` away and `b` sets
+`e` — and with it `f` — up again: `f 1` is set up, but no listing mentions it (`Table.dependencies` removed it by name
+inside `d`'s sub-listing and does not expand `e` a second time).  `DepsSound` holds, `Covered` does not, and the exact block
+pins `d`, `e`, `c`, `b` only. -/
+def D3 : AnswerData where
+  sv := [(str! "a", str! "1"), (str! "b", str! "1"), (str! "c", str! "1"), (str! "d", str! "1"), (str! "e", str! "1"), (str! "f", str! "1")]
+  spv := [(str! "a", str! "1"), (str! "b", str! "1"), (str! "c", str! "1"), (str! "d", str! "1"), (str! "e", str! "1"), (str! "f", str! "1")]
+  deps := [((str! "d", str! "1"), some [⟨str! "e", str! "1", false⟩]), ((str! "c", str! "1"), some []),
+           ((str! "b", str! "1"), some [⟨str! "d", str! "1", false⟩, ⟨str! "e", str! "1", false⟩, ⟨str! "e", str! "1", false⟩])]
+def T3 : List Str := [str! "setupRequired(d)\n", str! "setupRequired(c)\n", str! "setupRequired(b)\n"]
+
+theorem C17_d72_covered_fails_witness :
+    (D3.depsSound && !D3.covered o1 T3 &&
+      okText (expandText D3.toAnswers o1 T3)
+        [str! "if (type == exact) {", str! "   setupRequired(d               -j 1)", str! "   setupRequired(e               -j 1)",
+         str! "   setupRequired(c               -j 1)", str! "   setupRequired(b               -j 1)", str! "} else {",
+         str! "   setupRequired(d 1 [>= 1])", str! "   setupRequired(c 1 [>= 1])", str! "   setupRequired(b 1 [>= 1])", str! "}"]) = true := by
+  decide +kernel
+
+end EupsModel.C17
